@@ -184,6 +184,11 @@ pub struct RunResult {
     pub stats: Stats,
 }
 
+/// Fresh simulator state on a thread spawned inside a run.
+pub fn install_thread_state() {
+    reset_thread_state();
+}
+
 fn reset_thread_state() {
     rayon::sim::set(0, 1, false);
     rayon::sim::reset_stats();
@@ -446,7 +451,16 @@ pub fn run_check(check: &dyn Check, o: &Opts) -> i32 {
         std::fs::write(&path, &body).expect("write replay");
         // replay once in a fresh process before reporting
         let exe = std::env::current_exe().expect("exe");
-        let out = std::process::Command::new(exe).arg("replay").arg(&path).output();
+        // (up to three attempts: a violation that depends on a source the
+        // simulator cannot seed - HashMap iteration order - reproduces with
+        // high but not full probability per execution)
+        let mut out = std::process::Command::new(&exe).arg("replay").arg(&path).output();
+        for _ in 0..2 {
+            if matches!(&out, Ok(o) if o.status.code() == Some(1)) {
+                break;
+            }
+            out = std::process::Command::new(&exe).arg("replay").arg(&path).output();
+        }
         let ok = matches!(&out, Ok(o) if o.status.code() == Some(1));
         if ok {
             println!("minimised in {steps} steps: {} :: {}", mv.sig, mv.detail);
